@@ -864,6 +864,13 @@ func (vc *VC) step(fr *Frame, st *State, ins ssa.Instruction) (forks []*State) {
 	case *ssa.TypeAssert:
 		forks = vc.typeAssert(fr, st, x)
 	case *ssa.MakeMap:
+		if x.Reserve != nil {
+			// make(map[K]V, hint): the runtime allocates buckets for hint entries up front
+			if n, ok := vc.val(fr, st, x.Reserve).(Term); ok {
+				n = vc.toIndex(n, x.Reserve.Type())
+				vc.allocObligation(fr, st, n, x.Type().Underlying().(*types.Map).Elem(), x.Pos())
+			}
+		}
 		fr.env[x] = vc.makeMap(st, x.Type(), x.Name())
 	case *ssa.MapUpdate:
 		vc.mapUpdate(fr, st, x)
